@@ -45,6 +45,7 @@ LINE_OK = [
     r"^;$",
     r"^#pragma omp (parallel for|atomic|critical)$",
     r"^(v\d+|x\d+\[_occa_exclusive_index\]|x\d+|g\d+\[.*\]|s\d+\[.*\]) (=|\+=) .*;$",
+    r"^(\+\+|--)g\d+\[.*\];$",
 ]
 LINE_OK = [re.compile(x) for x in LINE_OK]
 
@@ -74,7 +75,7 @@ def logical_lines(src):
 def count_atomics(body):
     n = 0
     for s in body:
-        if s[0] == "SAtom":
+        if s[0] in ("SAtom", "SAtomInc", "SAtomDec"):
             n += 1
         elif s[0] == "SIf":
             n += count_atomics(s[2]) + count_atomics(s[3])
@@ -129,9 +130,9 @@ def structure_check(K, src):
                 bad.append("T2 declaration outside the parallel loop: " + l)
             else:
                 got_decls[ob] += 1
-        m = re.match(r"^g(\d+)\[.*\] \+= .*;$", l)
+        m = re.match(r"^g(\d+)\[.*\] \+= .*;$|^(?:\+\+|--)g(\d+)\[.*\];$", l)
         if m:
-            a = int(m.group(1))
+            a = int(m.group(1) or m.group(2))
             if 0 <= ob < nob and a in atom_targets[ob]:
                 got_atomics[ob] += 1
                 if not re.match(r"^#pragma omp (atomic|critical)$", prev):
@@ -140,7 +141,7 @@ def structure_check(K, src):
                 bad.append("T? += on a non-atomic array: " + l[:60])
         if re.match(r"^#pragma omp (atomic|critical)$", l):
             nxt = lines[i + 1] if i + 1 < len(lines) else ""
-            if not re.match(r"^g\d+\[.*\] \+= .*;$", nxt):
+            if not re.match(r"^g\d+\[.*\] \+= .*;$|^(\+\+|--)g\d+\[.*\];$", nxt):
                 bad.append("T3 atomic pragma not followed by the update")
         depth += l.count("{") - l.count("}")
         if ob != -1 and depth <= ob_depth:
